@@ -75,6 +75,7 @@ class Frame:
     def __init__(self, module, locals=None, parent=None, cls=None, func=None):
         self.module, self.locals, self.parent, self.cls, self.func = module, locals if locals is not None else {}, parent, cls, func
         self.cur_exc = None
+        self.fnode = None       # the function definition this frame executes (None for module / spec frames)
 
 
 def decorators(node):
@@ -110,6 +111,9 @@ class Interp:
         if name == "implies":
             a, b = ops.truth(self, args[0]), ops.truth(self, args[1])
             return VBool(t=z3.Implies(a.term(), b.term()))
+        if name == "pending_getters":
+            q_ = self.resolve(args[0])
+            return mkint(self.hobj(q_).meta.get("pending_getters", 0))
         if name == "has_own":
             o_ = self.resolve(args[0])
             return mkbool(isinstance(o_, VRef) and args[1].c in self.hobj(o_).fields)
@@ -143,6 +147,13 @@ class Interp:
         if name == "final":
             fr = self.final_frames.get(args[0].c if len(args) > 1 else None) or self.final_frames.get(None)
             nm = args[-1].c
+            if fr is not None and nm not in fr.locals and self.contracts is not None and self.verifying:
+                # a loop ghost of a loop that was never reached keeps its initial value
+                c_ = self.contracts.contracts.get(self.verifying)
+                for lc_ in (self.contracts.merged_loops(c_).values() if c_ is not None else []):
+                    if nm in lc_.get("ghost_init", {}):
+                        outer = Frame(c_.module, locals=self.path.ghost.get("entry_locals", {}), func="<spec>")
+                        return self.ev(c_.expr(lc_["ghost_init"][nm]), Frame(c_.module, locals=fr.locals, parent=outer, func="<spec>"))
             if fr is None or nm not in fr.locals:
                 raise Unsupported(f"final({nm!r}): no such local at return")
             return fr.locals[nm]
@@ -411,11 +422,51 @@ class Interp:
             return NONE
         raise Unsupported(f"constant {v!r}")
 
+    @staticmethod
+    def function_locals(fn_):
+        names = getattr(fn_, "_pyvc_locals", None)
+        if names is None:
+            names = set()
+            outer = set()
+            stack = list(fn_.body)
+            while stack:
+                s_ = stack.pop()
+                if isinstance(s_, (ast.FunctionDef, ast.AsyncFunctionDef, ast.ClassDef)):
+                    names.add(s_.name)
+                    continue
+                if isinstance(s_, (ast.Lambda, ast.ListComp, ast.SetComp, ast.DictComp, ast.GeneratorExp)):
+                    # own scope; only a walrus inside would bind in the function (not used in the repository)
+                    continue
+                if isinstance(s_, (ast.Global, ast.Nonlocal)):
+                    outer |= set(s_.names)
+                if isinstance(s_, ast.Name) and isinstance(s_.ctx, (ast.Store, ast.Del)):
+                    names.add(s_.id)
+                elif isinstance(s_, ast.ExceptHandler) and s_.name:
+                    names.add(s_.name)
+                elif isinstance(s_, (ast.Import, ast.ImportFrom)):
+                    names |= {(a.asname or a.name).split(".")[0] for a in s_.names}
+                stack.extend(ast.iter_child_nodes(s_))
+            a = fn_.args
+            names |= {p.arg for p in a.posonlyargs + a.args + a.kwonlyargs}
+            names -= outer
+            fn_._pyvc_locals = names
+        return names
+
     def ev_Name(self, node, fr):
+        fn_ = fr.fnode
+        if fn_ is not None and node.id not in fr.locals and node.id in self.function_locals(fn_):
+            # a local of this function that no executed statement has bound yet (Python does not fall back to outer scopes)
+            self.raise_py("builtins.UnboundLocalError", f"cannot access local variable '{node.id}' where it is not associated with a value")
         try:
-            return self.lookup(node.id, fr)
+            v = self.lookup(node.id, fr)
         except KeyError:
             raise Unsupported(f"name {node.id} (line {node.lineno})")
+        if type(v).__name__ == "VMaybeUnbound":
+            i_ = fr.locals.get("_i") if v.is_for else None
+            if i_ is not None and (i_.c == 0 or (i_.c is None and self.path.branch(i_.as_int() == 0, "first_iteration"))):
+                self.raise_py("builtins.UnboundLocalError", f"cannot access local variable '{node.id}' where it is not associated with a value")
+            raise Unsupported(f"local {node.id} holds a value bound by an earlier iteration of a loop (line {node.lineno}); the loop contract must describe it")
+        return v
 
     def ev_NamedExpr(self, node, fr):
         v = self.ev(node.value, fr)
@@ -874,8 +925,24 @@ class Interp:
                     self.path.assumption(f"log-argument-not-evaluated {fr.func or '?'}: {ast.unparse(a)}")
                     break
 
+    def any_child(self, a, tag, key=None):
+        """result of an operation on state with unknown history: again unknown, the same for the same operands on one path"""
+        from .values import VAny
+        k = ("anychild", tid(a.t), tag, self.B.vkey(self, key) if key is not None else None)
+        if k not in self.path.memo:
+            self.path.memo[k] = VAny(f"{a.name}.{tag}")
+            self.path.assumption(f"operations on {a.name.split('.')[0] + '.' + a.name.split('.')[1] if a.name.count('.') else a.name} (shared mutable state whose history the "
+                                 f"contract does not describe) return arbitrary values and are assumed not to raise; in-place updates of it are not tracked")
+        return self.path.memo[k]
+
     def call(self, fv, args, kwargs, node=None):
         fv = self.resolve(fv)
+        from .values import VAny as _VAny
+        if isinstance(fv, VBuiltin) and fv.name.startswith("any.") and isinstance(fv.self_val, _VAny):
+            nm = fv.name[4:]
+            if nm in ("add", "append", "extend", "update", "remove", "discard", "clear", "insert", "appendleft", "sort", "reverse"):
+                return NONE
+            return self.any_child(fv.self_val, nm + "()", VTuple(list(args)) if args else None)
         if isinstance(fv, VFunc):
             return self.call_func(fv, args, kwargs)
         if isinstance(fv, VBuiltin):
@@ -921,14 +988,14 @@ class Interp:
                 continue
             di = k - (len(params) - len(defaults))
             if di >= 0:
-                loc[p] = self.ev(defaults[di], dfr)
+                loc[p] = self.default_value(defaults[di], dfr, fv, p)
             else:
                 self.raise_py("builtins.TypeError", f"missing argument {p}")
         for p, d in zip(a.kwonlyargs, a.kw_defaults):
             if p.arg in kwargs:
                 loc[p.arg] = kwargs.pop(p.arg)
             elif d is not None:
-                loc[p.arg] = self.ev(d, dfr)
+                loc[p.arg] = self.default_value(d, dfr, fv, p.arg)
             else:
                 self.raise_py("builtins.TypeError", f"missing keyword argument {p.arg}")
         if kwargs:
@@ -941,6 +1008,19 @@ class Interp:
         elif a.kwarg is not None:
             loc[a.kwarg.arg] = self.new_dict()
         return loc
+
+    def default_value(self, node, dfr, fv, pname):
+        """a default is evaluated once, when the function is defined: a mutable container as default is state shared by all calls"""
+        mutable = isinstance(node, (ast.List, ast.Dict, ast.Set, ast.ListComp, ast.DictComp, ast.SetComp)) or (
+            isinstance(node, ast.Call) and isinstance(node.func, ast.Name) and node.func.id in ("list", "dict", "set", "bytearray"))
+        if not mutable:
+            return self.ev(node, dfr)
+        from .values import VAny
+        key = ("default", fv.qualname, pname)
+        if key not in self.path.globals:
+            self.path.globals[key] = VAny(f"{(fv.qualname or '<lambda>').split('.')[-1]}.{pname}")
+            self.path.assumption(f"mutable default argument {pname} of {fv.qualname}: one object shared by every call, arbitrary contents at function entry")
+        return self.path.globals[key]
 
     def call_func(self, fv: VFunc, args, kwargs):
         node = fv.node
@@ -998,6 +1078,7 @@ class Interp:
         fr = Frame(fv.module, locals=loc, parent=fv.closure, cls=fv.cls, func=fv.qualname)
         if isinstance(node, ast.Lambda):
             return self.ev(node.body, fr)
+        fr.fnode = node
         ite = self.return_ite(node)
         if ite is not None:
             return self.ev(ite, fr)       # `if c: return a` / `return b` is the conditional expression (merged when pure, forked otherwise)
@@ -1039,6 +1120,9 @@ class Interp:
 
     # attribute access ---------------------------------------------------------------------------
     def getattr_(self, base, name):
+        from .values import VAny as _VAny
+        if isinstance(base, _VAny):
+            return VBuiltin("any." + name, base)
         if isinstance(base, VUnion):
             if all(isinstance(a, (VRef, VNone)) for _, a in base.alts):
                 base = self.resolve(base)
@@ -1284,6 +1368,10 @@ class Interp:
 
     def contains(self, cont, x) -> VBool:
         cont = self.resolve(cont)
+        from .values import VAny as _VAny
+        if isinstance(cont, _VAny):
+            self.any_child(cont, "in")      # records the assumption
+            return ops._any_pred(self, "in", cont, self.resolve(x))
         if isinstance(cont, VRef):
             o = self.hobj(cont)
             if o.kind in ("list", "set"):
@@ -1370,6 +1458,9 @@ class Interp:
     def getitem(self, base, idx):
         base = self.resolve(base)
         idx = self.resolve(idx)
+        from .values import VAny as _VAny
+        if isinstance(base, _VAny):
+            return self.any_child(base, "[]", idx)
         if isinstance(base, VBytes):
             if isinstance(idx, VBool):
                 idx = ops._to_intlike(self, idx)
